@@ -10,6 +10,7 @@ import (
 	"fmt"
 	"sort"
 	"strings"
+	"sync/atomic"
 
 	"github.com/pingcap/kvproto/pkg/metapb"
 	"github.com/tikv/pd/server/core"
@@ -153,14 +154,115 @@ type world struct {
 	heldN   int
 	// noRefresh: regions are being loaded the way a start-up does (no store-record refresh)
 	noRefresh bool
+	stores    []uint64 // stores with a store record
+	spell     int32
 }
 
-func newWorld() *world {
+var defaultStores = []uint64{1, 2, 3, 4, 5, 6, 7, 8}
+
+// newWorld: stores = ids of the stores that have a store record (nil = 1..8).
+func newWorld(stores []uint64) *world {
+	if len(stores) == 0 {
+		stores = defaultStores
+	}
 	bc := core.NewBasicCluster()
-	for s := uint64(1); s <= 8; s++ {
+	for _, s := range stores {
 		bc.PutStore(core.NewStoreInfo(&metapb.Store{Id: s}))
 	}
-	return &world{bc: bc, ri: bc.Regions, m: newModel(), cnt: counter{}, probes: counter{}, probeID: 1 << 40}
+	return &world{bc: bc, ri: bc.Regions, m: newModel(), cnt: counter{}, probes: counter{}, probeID: 1 << 40, stores: stores}
+}
+
+// kb spells a key for pd: the empty key alternates between nil and an empty slice (equal by convention).
+func (w *world) kb(k hexkey) []byte {
+	if k == "" && atomic.AddInt32(&w.spell, 1)%2 == 0 {
+		return nil
+	}
+	return []byte(k)
+}
+
+// infoMatchesSpec compares the object pd holds with the spec element by element (no serialisation).
+func infoMatchesSpec(r *core.RegionInfo, sp *regionSpec) bool {
+	if r == nil || r.GetID() != sp.ID || string(r.GetStartKey()) != string(sp.Start) || string(r.GetEndKey()) != string(sp.End) ||
+		r.GetApproximateSize() != sp.Size || len(r.GetPeers()) != len(sp.Peers) {
+		return false
+	}
+	nv, nl := 0, 0
+	for _, p := range r.GetPeers() {
+		q := sp.peer(p.GetId())
+		if q == nil || q.Store != p.GetStoreId() || q.Learner != (p.GetRole() == metapb.PeerRole_Learner) {
+			return false
+		}
+	}
+	for _, q := range sp.Peers {
+		if q.Learner {
+			nl++
+		} else {
+			nv++
+		}
+	}
+	if len(r.GetVoters()) != nv || len(r.GetLearners()) != nl {
+		return false
+	}
+	for _, p := range r.GetVoters() {
+		if q := sp.peer(p.GetId()); q == nil || q.Learner || q.Store != p.GetStoreId() {
+			return false
+		}
+	}
+	for _, p := range r.GetLearners() {
+		if q := sp.peer(p.GetId()); q == nil || !q.Learner || q.Store != p.GetStoreId() {
+			return false
+		}
+	}
+	if l, q := r.GetLeader(), sp.peer(sp.Leader); (l == nil) != (q == nil) || (l != nil && (l.GetId() != q.ID || l.GetStoreId() != q.Store)) {
+		return false
+	}
+	inIDs := func(ids []uint64, id uint64) bool {
+		for _, x := range ids {
+			if x == id {
+				return true
+			}
+		}
+		return false
+	}
+	if len(r.GetPendingPeers()) != len(sp.Pending) || len(r.GetDownPeers()) != len(sp.Down) {
+		return false
+	}
+	for _, p := range r.GetPendingPeers() {
+		if q := sp.peer(p.GetId()); q == nil || !inIDs(sp.Pending, p.GetId()) || q.Store != p.GetStoreId() {
+			return false
+		}
+	}
+	for _, d := range r.GetDownPeers() {
+		if q := sp.peer(d.GetPeer().GetId()); q == nil || !inIDs(sp.Down, q.ID) || q.Store != d.GetPeer().GetStoreId() {
+			return false
+		}
+	}
+	return r.GetApproximateKeys() == sp.AKeys && r.GetBytesWritten() == sp.Flow
+}
+
+// equalInfo: two region objects say the same about everything the statement speaks of (element-wise).
+func equalInfo(a, b *core.RegionInfo) bool {
+	if a == nil || b == nil {
+		return a == b
+	}
+	if a.GetID() != b.GetID() || string(a.GetStartKey()) != string(b.GetStartKey()) || string(a.GetEndKey()) != string(b.GetEndKey()) ||
+		a.GetApproximateSize() != b.GetApproximateSize() || a.GetLeader().GetId() != b.GetLeader().GetId() ||
+		a.GetLeader().GetStoreId() != b.GetLeader().GetStoreId() || (a.GetLeader() == nil) != (b.GetLeader() == nil) ||
+		len(a.GetPeers()) != len(b.GetPeers()) || len(a.GetPendingPeers()) != len(b.GetPendingPeers()) {
+		return false
+	}
+	for _, p := range a.GetPeers() {
+		q := b.GetPeer(p.GetId())
+		if q == nil || q.GetStoreId() != p.GetStoreId() || q.GetRole() != p.GetRole() {
+			return false
+		}
+	}
+	for _, p := range a.GetPendingPeers() {
+		if q := b.GetPendingPeer(p.GetId()); q == nil || q.GetStoreId() != p.GetStoreId() {
+			return false
+		}
+	}
+	return true
 }
 
 func (w *world) count(k string, n int64) { w.cnt[k] += n }
@@ -311,7 +413,7 @@ func (j *judger) same(got *core.RegionInfo, want *entry) bool {
 	if got == want.info {
 		return true
 	}
-	if got.GetID() == want.spec.ID && descInfo(got) == descInfo(want.info) {
+	if got.GetID() == want.spec.ID && equalInfo(got, want.info) {
 		j.cnt.add("same_content_other_object", 1)
 		return true
 	}
@@ -362,7 +464,7 @@ func (j *judger) inCands(got *core.RegionInfo, cands []*entry) int {
 }
 
 func (w *world) probeRegion(id uint64, s, e hexkey) *core.RegionInfo {
-	return core.NewRegionInfo(&metapb.Region{Id: id, StartKey: []byte(s), EndKey: []byte(e),
+	return core.NewRegionInfo(&metapb.Region{Id: id, StartKey: w.kb(s), EndKey: w.kb(e),
 		RegionEpoch: &metapb.RegionEpoch{ConfVer: 1 << 50, Version: 1 << 50}}, nil)
 }
 
@@ -371,8 +473,17 @@ func keyRanges(rs [][2]hexkey) []core.KeyRange {
 		return nil
 	}
 	out := make([]core.KeyRange, 0, len(rs))
-	for _, r := range rs {
-		out = append(out, core.NewKeyRange(string(r[0]), string(r[1])))
+	for i, r := range rs {
+		kr := core.NewKeyRange(string(r[0]), string(r[1]))
+		if i%2 == 1 { // every other range spells empty keys as nil
+			if len(kr.StartKey) == 0 {
+				kr.StartKey = nil
+			}
+			if len(kr.EndKey) == 0 {
+				kr.EndKey = nil
+			}
+		}
+		out = append(out, kr)
 	}
 	return out
 }
@@ -466,18 +577,18 @@ func (w *world) fetch(p *probe) (a *answer) {
 	case "allregions":
 		a.Regs = bc.GetRegions()
 	case "search":
-		a.Regs = []*core.RegionInfo{bc.SearchRegion([]byte(p.Key))}
+		a.Regs = []*core.RegionInfo{bc.SearchRegion(w.kb(p.Key))}
 	case "searchprev":
-		a.Regs = []*core.RegionInfo{bc.SearchPrevRegion([]byte(p.Key))}
+		a.Regs = []*core.RegionInfo{bc.SearchPrevRegion(w.kb(p.Key))}
 	case "scan":
 		if inverted(p.Start, p.End) {
 			a.Skip = true
 			return
 		}
-		a.Regs = bc.ScanRange([]byte(p.Start), []byte(p.End), p.Limit)
+		a.Regs = bc.ScanRange(w.kb(p.Start), w.kb(p.End), p.Limit)
 	case "scaniter":
 		w.locked(func() {
-			ri.ScanRangeWithIterator([]byte(p.Start), func(r *core.RegionInfo) bool { a.Regs = append(a.Regs, r); return true })
+			ri.ScanRangeWithIterator(w.kb(p.Start), func(r *core.RegionInfo) bool { a.Regs = append(a.Regs, r); return true })
 		})
 	case "overlaps":
 		if pr := resolve(); pr != nil {
@@ -803,7 +914,7 @@ func (w *world) eval(p *probe) *failure {
 			if p.ID != 0 && e.spec.ID != p.ID {
 				continue
 			}
-			if sigInfo(e.info) != sigSpec(e.spec) {
+			if !infoMatchesSpec(e.info, e.spec) {
 				return fail("cached-region-object-changed", fmt.Sprintf("the cached object of region %d no longer says what was put", e.spec.ID), canonInfo(e.info), canonSpec(e.spec))
 			}
 		}
@@ -811,7 +922,7 @@ func (w *world) eval(p *probe) *failure {
 			if h.info == nil || (p.ID != 0 && i%12 != int(w.probes["content"])%12) {
 				continue // per operation: a rotating twelfth of the objects; in sweeps: all
 			}
-			if sigInfo(h.info) != h.sig {
+			if !infoMatchesSpec(h.info, h.spec) {
 				return fail("returned-region-object-changed", "a region object obtained earlier from the cache was modified afterwards (regions are read-only once created)", canonInfo(h.info), canonSpec(h.spec))
 			}
 		}
